@@ -63,6 +63,8 @@ type VC struct {
 	allocNames map[string]bool     // references created by allocRef: pairwise distinct
 	allocList    []string          // the same references in allocation order
 	elemDeclared bool              // an elemaddr_T function (and iselem) has been declared
+	embSites     int            // number of embedding functions declared (site tags, see emb)
+	embSite      map[string]int // embedding function -> its site tag
 	opaque    map[string]bool // spec fns whose definition is hidden in this unit (clause `opaque pkg.f ...`)
 	skipUndischarged bool // reach script: leave out the goals of obligations that were not discharged
 	writeCount map[string]int // number of updates per heap key (static bound for position-wise stream comparison)
@@ -70,7 +72,7 @@ type VC struct {
 }
 
 func NewVC(prog *Program, mode Mode, name string) *VC {
-	vc := &VC{prog: prog, mode: mode, name: name, decls: map[string]string{}, strlits: map[string]string{},
+	vc := &VC{prog: prog, mode: mode, name: name, decls: map[string]string{}, embSite: map[string]int{}, strlits: map[string]string{},
 		heapSorts: map[string]string{}, typeIDs: map[string]int{}, onceAx: map[string]bool{}, assumptions: map[string]bool{},
 		oblCount: map[string]int{}, inlined: map[string]bool{}, usedContracts: map[string]bool{}, strOfArr: map[string]string{}, defs: map[string]string{}, globalsDone: map[string]bool{}, writeCount: map[string]int{}}
 	vc.declare("Str", "(declare-sort Str 0)")
@@ -331,6 +333,14 @@ func (vc *VC) emb(S types.Type, fname, ref string) string {
 		vc.declare(n+"_inv", "(declare-fun "+n+"_inv (Int) Int)")
 		vc.axiom("(forall ((r Int)) (! (= (" + n + "_inv (" + n + " r)) r) :pattern ((" + n + " r))))")
 		vc.axiom("(forall ((r Int)) (! (=> (not (= r 0)) (< (" + n + " r) 0)) :pattern ((" + n + " r))))")
+		// sub-objects embedded at different (struct type, field) sites are different objects: every embedding function
+		// tags its (non-nil) results with its own site number
+		if _, ok := vc.decls["emb_site"]; !ok {
+			vc.declare("emb_site", "(declare-fun emb_site (Int) Int)")
+		}
+		vc.embSites++
+		vc.embSite[n] = vc.embSites
+		vc.axiom(fmt.Sprintf("(forall ((r Int)) (! (=> (not (= r 0)) (= (emb_site (%s r)) %d)) :pattern ((%s r))))", n, vc.embSites, n))
 	}
 	t := "(" + n + " " + ref + ")"
 	// ground instances of the two axioms (the quantified forms are dropped in lock-discipline VCs); not for a term under a
@@ -339,6 +349,7 @@ func (vc *VC) emb(S types.Type, fname, ref string) string {
 		return t
 	}
 	vc.axiomOnce("(and (= (" + n + "_inv " + t + ") " + ref + ") (=> (not (= " + ref + " 0)) (< " + t + " 0)))")
+	vc.axiomOnce(fmt.Sprintf("(=> (not (= %s 0)) (= (emb_site %s) %d))", ref, t, vc.embSite[n]))
 	return t
 }
 
